@@ -127,6 +127,22 @@ fn enum_shapes(ex: &Ex, n: u64, make: impl Fn(u64) -> Vec<Shape> + Sync) {
                 }
                 Err(f) => ex.fail(i * 4096 + k as u64, f.sig, f.detail, format!("{:?}", s)),
             }
+            // iterator protocol of points(), three scripts per shape from a tape derived from the index
+            for rep in 0..3u64 {
+                let mut x = (i * 4096 + k as u64) * 3 + rep + 1;
+                let tape: Vec<u32> = (0..AUX + 8)
+                    .map(|_| {
+                        x ^= x << 13;
+                        x ^= x >> 7;
+                        x ^= x << 17;
+                        (x >> 16) as u32
+                    })
+                    .collect();
+                let mut d = Dec::new(&tape);
+                if let Err(f) = s.points_protocol(&mut d) {
+                    ex.fail(i * 4096 + k as u64, f.sig, f.detail, format!("{:?}", s));
+                }
+            }
         }
         if i % 37 == 11 {
             if let Some(s) = shapes.last() {
@@ -206,6 +222,9 @@ fn rrect_random(d: &mut Dec, cx: &mut Cx) -> Res {
     cx.describe(|| format!("{:?}", s));
     cx.class(if big { "big" } else { "small" });
     let r = check_shape(&s)?;
+    if r.n_points <= 20_000 {
+        s.points_protocol(d)?;
+    }
     cx.nontrivial(r.n_points >= 3 && !r.full_rect);
     Ok(())
 }
@@ -222,6 +241,9 @@ fn round_random(d: &mut Dec, cx: &mut Cx) -> Res {
     let s = s.translate(gen::far_offset(d));
     cx.describe(|| format!("{:?}", s));
     let r = check_shape(&s)?;
+    if r.n_points <= 20_000 {
+        s.points_protocol(d)?;
+    }
     cx.nontrivial(r.n_points >= 3 && !r.full_rect);
     Ok(())
 }
@@ -233,7 +255,11 @@ pub fn nonflat_triangle(d: &mut Dec, r: i32) -> Triangle {
     if a == b {
         b.x += 1;
     }
-    let mut c = gen::point(d, r);
+    let c = gen::point(d, r);
+    let (b2, mut c) = gen::structure_triangle(d, a, b, c);
+    if b2 != a {
+        b = b2;
+    }
     let mut k = 0;
     while orient(a, b, c) == 0 {
         // move off the line, deterministically
@@ -256,6 +282,9 @@ fn triangles_random(d: &mut Dec, cx: &mut Cx) -> Res {
     let thin = orient(a, b, c).abs() <= 40;
     cx.class(if thin { "thin" } else { "fat" });
     let r = check_shape(&s)?;
+    if r.n_points <= 20_000 {
+        s.points_protocol(d)?;
+    }
     cx.nontrivial(r.n_points >= 3 && !r.full_rect);
     Ok(())
 }
@@ -269,6 +298,9 @@ fn sectors(d: &mut Dec, cx: &mut Cx) -> Res {
     cx.describe(|| format!("Sector top_left={:?} d={} start={} sweep={}", p, dia, a0, a1));
     cx.class(if a1.abs() >= 360.0 { "full" } else if a1 == 0.0 { "zero_sweep" } else { "partial" });
     let r = check_shape(&s)?;
+    if r.n_points <= 20_000 {
+        s.points_protocol(d)?;
+    }
     cx.nontrivial(r.n_points >= 3 && !r.full_rect && a1.abs() < 360.0);
     Ok(())
 }
@@ -301,6 +333,9 @@ fn large_shapes(d: &mut Dec, cx: &mut Cx) -> Res {
     cx.describe(|| format!("{:?}", s));
     cx.class(s.kind());
     let r = check_shape(&s)?;
+    if r.n_points <= 20_000 {
+        s.points_protocol(d)?;
+    }
     cx.nontrivial(r.n_points >= 3 && !r.full_rect);
     Ok(())
 }
